@@ -3,7 +3,7 @@
    conventions).  Tensors are rank-polymorphic: dtype code, shape (zero extents allowed) and nested
    data whose scalars are opaque [val]s.  Definitions only. *)
 From Coq Require Import ZArith List Bool String Arith.
-From TE Require Import Base.Val Models.Proto.
+From TE Require Import Base.Val Models.Proto Models.SyncSchema.
 Import ListNotations.
 Open Scope string_scope.
 
@@ -63,6 +63,23 @@ Fixpoint maxshape (ss : list (list nat)) : list nat :=
 (* torch.equal(max_size, min_size): all rows equal *)
 Fixpoint all_eq (ss : list (list nat)) : bool :=
   match ss with [] => true | s :: r => forallb (shp_eqb s) r && all_eq r end.
+(* ---- dtype negotiation (fx_dt) ----
+   t.to(dtype): scalars are opaque exact values, so the model's cast only relabels the dtype; this mirrors the code
+   whenever every value is representable in the target (the transport dtype is chosen so that it is: see [transport];
+   int64 beyond 2^53 in a float64 transport is outside the model) *)
+Definition cast (d : Z) (t : tensor) : tensor := mkT d (shp t) (dat t).
+Definition is_intcode (d : Z) : bool := Z.eqb d 2 || Z.eqb d 3 || Z.eqb d 5.        (* int32, int64, uint8 *)
+(* _transport_dtype: the promoted dtype, float64 where float32 would have to hold integers *)
+Definition transport (ds : list Z) : Z :=
+  let p := match ds with [] => 0%Z | d :: r => fold_left promote r d end in
+  if Z.eqb p 0 && existsb is_intcode ds then 1%Z else p.
+Definition all_same (ds : list Z) : bool := match ds with [] => true | d :: r => forallb (Z.eqb d) r end.
+(* torch.tensor([t.ndim, code]) and its two components *)
+Definition of_ndim_dt (t : tensor) : tensor :=
+  mkT 3%Z [2] (TArr [TSc (VZ (Z.of_nat (List.length (shp t)))); TSc (VZ (dt t))]).
+Definition meta_nd (x : tensor) : nat := match dat x with TArr (TSc (VZ z) :: _) => Z.to_nat z | _ => 0 end.
+Definition meta_dt (x : tensor) : Z := match dat x with TArr [_; TSc (VZ z)] => z | _ => (-1)%Z end.
+
 Definition same_meta (t u : tensor) : bool := Z.eqb (dt t) (dt u) && shp_eqb (shp t) (shp u).
 
 (* ------------------------------------------------------------------ collectives *)
@@ -161,10 +178,14 @@ Definition bad {A} : P A := Ret (Exc "internal").
    fx_dst: the named ``rank`` is translated to a global rank for gather / gather_object dst;
    fx_d10: send_tensors first negotiates the number of dimensions (all_gather of [ndim]); tensors of
            lower rank travel with leading 1-extents and get their own shape back on receipt.
+   fx_dt : (on top of fx_d10; fixes/sync-dtype.patch) the same exchange carries a dtype code: all_gather of
+           [ndim, code]; when the codes differ every tensor is cast to a common transport dtype before the
+           pad / gather and every gathered item is cast back to its SENDER's dtype; when they are all equal
+           the collectives after the exchange are exactly those of fx_d10.
    The correspondence decides which variant the tree implements. ---- *)
-Record fixes := mkFx { fx_d12 : bool; fx_d9 : bool; fx_dst : bool; fx_d10 : bool }.
-Definition V_code : fixes := mkFx false false false false.
-Definition V_fixed : fixes := mkFx true true true true.
+Record fixes := mkFx { fx_d12 : bool; fx_d9 : bool; fx_dst : bool; fx_d10 : bool; fx_dt : bool }.
+Definition V_code : fixes := mkFx false false false false false.
+Definition V_fixed : fixes := mkFx true true true true true.
 (* dist.get_global_rank(group, r) *)
 Definition global_rank (g : list nat) (r : nat) : nat := nth r g r.
 
@@ -259,7 +280,29 @@ Definition send_uneven (dst : option nat) (i : nat) (t : tensor) : P (option (li
    differ in ndim issue different collectives).
    fx_d10: ndims = all_gather([result.ndim]); all zero -> scalar fast path; otherwise every tensor is
    reshaped to (1,)*(max_ndim - ndim) + shape, sent, and entry idx is reshaped back to shape[max_ndim - ndims[idx]:] *)
+(* the part of send_tensors after the negotiation, for the negotiated ndims [ns] *)
+Definition send_nd (dst : option nat) (i : nat) (ns : list nat) (t : tensor) : P (option (list tensor)) :=
+  let mx := maxl ns in
+  if Nat.eqb mx 0 then simple_send dst i t
+  else bindr (send_uneven dst i (lift (mx - ndim t) t))
+             (fun o => Ret (Ok (option_map (map2 (fun n u => unlift (mx - n) u) ns) o))).
+(* fx_dt: metas = all_gather([ndim, code]); codes all equal -> as fx_d10; otherwise cast to the transport dtype,
+   send, and cast entry idx back to dtypes[idx] *)
+Definition send_tensors_dt (dst : option nat) (i : nat) (t : tensor) : P (option (list tensor)) :=
+  Op (AllGather (of_ndim_dt t)) (fun r =>
+    match r with
+    | RTens ms =>
+        let ns := map meta_nd ms in
+        let ds := map meta_dt ms in
+        if all_same ds then send_nd dst i ns t
+        else bindr (send_nd dst i ns (cast (transport ds) t))
+                   (fun o => Ret (Ok (option_map (map2 cast ds) o)))
+    | RErr e => Ret (Exc e)
+    | _ => bad
+    end).
+
 Definition send_tensors (dst : option nat) (i : nat) (t : tensor) : P (option (list tensor)) :=
+  if fx_d10 fx && fx_dt fx then send_tensors_dt dst i t else
   if fx_d10 fx then
     Op (AllGather (of_shape [ndim t])) (fun r =>
       match r with
@@ -431,16 +474,17 @@ Definition val_of_run {A} (f : A -> val) (tr : list (list (option call)) * optio
 
 Definition fixes_of_val (v : val) : fixes :=
   match v with
-  | VL [a; b; c; d] => mkFx (match as_B a with Some true => true | _ => false end)
-                            (match as_B b with Some true => true | _ => false end)
-                            (match as_B c with Some true => true | _ => false end)
-                            (match as_B d with Some true => true | _ => false end)
+  | VL [a; b; c; d; e] => mkFx (match as_B a with Some true => true | _ => false end)
+                               (match as_B b with Some true => true | _ => false end)
+                               (match as_B c with Some true => true | _ => false end)
+                               (match as_B d with Some true => true | _ => false end)
+                               (match as_B e with Some true => true | _ => false end)
   | _ => V_code end.
 Definition dst_of_val (v : val) : option nat := match v with VZ z => Some (Z.to_nat z) | _ => None end.
 Fixpoint mapi {X Y} (f : nat -> X -> Y) (i : nat) (l : list X) : list Y :=
   match l with [] => [] | x :: r => f i x :: mapi f (S i) r end.
 
-(* scenario: (Wg (g ...) dst (fix_d12 fix_d9 fix_dst) (t_0 ...) | (md_0 ...)) with one entry per member of g *)
+(* scenario: (Wg (g ...) dst (fix_d12 fix_d9 fix_dst fix_d10 fix_dt) (t_0 ...) | (md_0 ...)) with one entry per member of g *)
 (* @model sync_send run_sync_send *)
 Definition run_sync_send (v : val) : val :=
   match v with
